@@ -1,6 +1,6 @@
 SPECIFICATION Spec
 CONSTANTS
-  Deviations <- RealDevs
+  Deviations <- AllDevs
   Apis <- AllApis
   MaxSparse = 1
   MaxDense = 0
